@@ -217,6 +217,7 @@ void World::post_step(int r, Observer* obs) {
         if (result.conditionSatisfied()) {
             Firing f{r, action->name(), {}, static_cast<double>(now)};
             f.wells = result.matches().wells().asVector();
+            for (const auto& wn : sched->wellNames(static_cast<size_t>(r))) { const auto& wl = sched->getWell(wn, static_cast<size_t>(r)); if (wl.getStatus() == Well::Status::SHUT && wl.getConnections().allConnectionsShut()) f.shut_closed.push_back(wn); }
             sim::fs::note("action_fire", action->name() + "@" + std::to_string(r));
             sched->applyAction(static_cast<size_t>(r), *action, result.matches(), std::unordered_map<std::string, double>{});
             if (cfg.add_run) astate.add_run(*action, now, result);
